@@ -280,6 +280,12 @@ func (fx *FnExec) localByName(name string) (Val, bool) {
 	if len(found) == 1 {
 		if in, ok := found[0].(ssa.Instruction); ok && fx.curBlock != nil {
 			if in.Block() != fx.curBlock && !in.Block().Dominates(fx.curBlock) {
+				// defined on some paths only: usable under the guard "the defining block was passed" when the
+				// caller collects guards (postconditions over locals), otherwise unknown
+				if r, done := fx.reach[in.Block()]; done && fx.localGuards != nil {
+					*fx.localGuards = append(*fx.localGuards, r)
+					return fx.val(found[0]), true
+				}
 				return Val{}, false
 			}
 		}
@@ -304,6 +310,50 @@ func (fx *FnExec) localByName(name string) (Val, bool) {
 		}
 	}
 	return Val{}, false
+}
+
+// localNth: the k-th distinct variable named name (ordered by the position of its first definition); usable when its
+// definition dominates the current block, or - where guards are collected - under the guard that it was passed
+func (fx *FnExec) localNth(name string, k int) (Val, bool) {
+	type cand struct {
+		pos token.Pos
+		v   ssa.Value
+	}
+	var cs []cand
+	seenObj := map[token.Pos]bool{}
+	for _, b := range fx.fn.Blocks {
+		for _, in := range b.Instrs {
+			if d, ok := in.(*ssa.DebugRef); ok && !d.IsAddr {
+				if obj := d.Object(); obj != nil && obj.Name() == name {
+					// the defining occurrence of a variable is the DebugRef at the object's own position
+					if d.Pos() == obj.Pos() && !seenObj[obj.Pos()] {
+						seenObj[obj.Pos()] = true
+						cs = append(cs, cand{obj.Pos(), d.X})
+					}
+				}
+			}
+		}
+	}
+	sort.Slice(cs, func(i, j int) bool { return cs[i].pos < cs[j].pos })
+	if k < 1 || k > len(cs) {
+		return Val{}, false
+	}
+	v := cs[k-1].v
+	if _, have := fx.vals[v]; !have {
+		if _, isConst := v.(*ssa.Const); !isConst {
+			return Val{}, false
+		}
+	}
+	if in, ok := v.(ssa.Instruction); ok && fx.curBlock != nil {
+		if in.Block() != fx.curBlock && !in.Block().Dominates(fx.curBlock) {
+			if r, done := fx.reach[in.Block()]; done && fx.localGuards != nil {
+				*fx.localGuards = append(*fx.localGuards, r)
+				return fx.val(v), true
+			}
+			return Val{}, false
+		}
+	}
+	return fx.val(v), true
 }
 
 func (fx *FnExec) assumeRequires() error {
